@@ -340,10 +340,11 @@ impl SwiftField for Field57 {
                 let field = Field57D::parse(value)?;
                 Ok(Field57::D(field))
             }
-            _ => {
-                // No variant specified, fall back to default parse behavior
-                Self::parse(value)
-            }
+            // No option letter given: fall back to content-based detection
+            None => Self::parse(value),
+            Some(other) => Err(ParseError::InvalidFormat {
+                message: format!("Field 57 has no option '{}'", other),
+            }),
         }
     }
 
@@ -520,10 +521,11 @@ impl SwiftField for Field57DebtInstitution {
                 let field = Field57D::parse(value)?;
                 Ok(Field57DebtInstitution::D(field))
             }
-            _ => {
-                // No variant specified, fall back to default parse behavior
-                Self::parse(value)
-            }
+            // No option letter given: fall back to content-based detection
+            None => Self::parse(value),
+            Some(other) => Err(ParseError::InvalidFormat {
+                message: format!("Field 57 has no option '{}'", other),
+            }),
         }
     }
 
